@@ -211,6 +211,9 @@ class ASTVisitor:
     def _visit_fragment_definition(
         self, definition: _ast.FragmentDefinition
     ) -> _ast.FragmentDefinition:
+        definition.variable_definitions = map_and_filter(
+            self._visit_variable_definition, definition.variable_definitions
+        )
         definition.directives = map_and_filter(
             self._visit_directive, definition.directives
         )
